@@ -27,18 +27,21 @@ EXTENDS Restart
 
 \* The generator's own clock: the first fault comes at a depth drawn at the start, the following ones
 \* after a drawn gap, so that the simulated behaviours reach the late phases of an environment's life.
-CONSTANTS FaultStarts, FaultGaps
+CONSTANTS FaultStarts, FaultGaps,
+          CoreOpts   \* core option sets the property must be indifferent to (--mesosCheckpoint, --mesosFailoverTimeout > 0, ...):
+                     \* drawn at the start, the core of every life of the scenario is started with them
 VARIABLES tick, fstart, whole,  \* whole: no update of the last RECONCILE answer has been delivered yet
           flav,                 \* how the last lost KILL call was lost: "" | "lost" | "refused" | "refusedmany" (others alive)
           ovl,                  \* 0 | 1: a deployment wrote the roster while a teardown was held | 2: ... and the stream
                                 \* was dropped after that teardown was over
           owdep,                \* the stream was dropped while a KILL was lost AND an environment had been deployed since
-          dda                   \* an environment was requested while the whole answer to a RECONCILE call was still pending
-gvars == <<vars, tick, fstart, whole, flav, ovl, owdep, dda>>
+          dda,                  \* an environment was requested while the whole answer to a RECONCILE call was still pending
+          opt                   \* the core options of this scenario (an element of CoreOpts); nothing in Restart depends on it
+gvars == <<vars, tick, fstart, whole, flav, ovl, owdep, dda, opt>>
 Keep == flav' = flav /\ ovl' = ovl /\ owdep' = owdep /\ dda' = dda
-Tk == tick' = tick + 1 /\ fstart' = fstart /\ whole' = whole /\ Keep
-TkW(b) == tick' = tick + 1 /\ fstart' = fstart /\ whole' = b /\ Keep
-TkF == tick' = tick + 1 /\ fstart' \in {tick + g : g \in FaultGaps} /\ whole' = whole /\ dda' = dda
+Tk == tick' = tick + 1 /\ opt' = opt /\ fstart' = fstart /\ whole' = whole /\ Keep
+TkW(b) == tick' = tick + 1 /\ opt' = opt /\ fstart' = fstart /\ whole' = b /\ Keep
+TkF == tick' = tick + 1 /\ opt' = opt /\ fstart' \in {tick + g : g \in FaultGaps} /\ whole' = whole /\ dda' = dda
 
 Settled == rq = {} /\ rcv = {}
 Quiet == up /\ conn = "up" /\ rq = {} /\ rcv = {} /\ kq = {}
@@ -70,7 +73,7 @@ G_Reconcile == Reconcile /\ TkW(TRUE)
 G_ReconcileUpdate(t) == ReconcileUpdate(t) /\ TkW(FALSE)
 G_KillOnReconcile(t) == KillOnReconcile(t) /\ Tk
 G_KillArrives(t) == KillArrives(t) /\ Tk
-TkL(f) == tick' = tick + 1 /\ fstart' = fstart /\ whole' = whole /\ flav' = f /\ ovl' = ovl /\ owdep' = owdep /\ dda' = dda
+TkL(f) == tick' = tick + 1 /\ opt' = opt /\ fstart' = fstart /\ whole' = whole /\ flav' = f /\ ovl' = ovl /\ owdep' = owdep /\ dda' = dda
 G_KillLost(t) == NoneTransient /\ ~owed /\ KillLost(t) /\ TkL("lost")
 G_KillRefused(t) ==
   /\ NoneTransient /\ ~owed /\ KillRefused(t)
@@ -82,14 +85,14 @@ G_RefreshOnReconcile(t) == RefreshOnReconcile(t) /\ Tk
 AnswerHeld == up /\ conn = "up" /\ whole /\ rq # {} /\ rcv = {} /\ kq = {} /\ NoneTransient /\ ~owed
 G_NewEnv(e) ==
   /\ (DriverFree \/ (Quiet /\ ~owed /\ TeardownHeld) \/ AnswerHeld) /\ NewEnv(e)
-  /\ tick' = tick + 1 /\ fstart' = fstart /\ whole' = whole /\ flav' = flav /\ ovl' = ovl /\ owdep' = owdep
+  /\ tick' = tick + 1 /\ opt' = opt /\ fstart' = fstart /\ whole' = whole /\ flav' = flav /\ ovl' = ovl /\ owdep' = owdep
   /\ dda' = (dda \/ AnswerHeld)
 G_Launch(e, S) == Settled /\ Launch(e, S) /\ Tk
 G_Lock(e) == Lock(e) /\ Tk
 \* (a deployment parked by the driver, like a report held back by it, is let go only once recovery has settled)
 G_RosterAppend(e) ==
   /\ (conn # "up" \/ Settled) /\ RosterAppend(e)
-  /\ tick' = tick + 1 /\ fstart' = fstart /\ whole' = whole /\ flav' = flav /\ owdep' = owdep /\ dda' = dda
+  /\ tick' = tick + 1 /\ opt' = opt /\ fstart' = fstart /\ whole' = whole /\ flav' = flav /\ owdep' = owdep /\ dda' = dda
   /\ ovl' = IF \E o \in Envs \ {e} : env[o] \in {"rewriting", "killing"} THEN 1 ELSE ovl
 \* the agent's report is held back until the roster is written and the event stream can carry it (a report
 \* sent while the stream is down is lost; Restart does not model what the core has learned), or the core is gone
@@ -127,7 +130,7 @@ GenNext ==
                      \/ G_Release(e) \/ G_RosterRemove(e) \/ G_RosterRead(e) \/ G_RosterWrite(e) \/ G_KillSend(e) \/ G_EnvError(e)
   \/ G_Crash \/ G_DropConnection
 
-GenInit == Init /\ tick = 0 /\ fstart \in FaultStarts /\ whole = FALSE /\ flav = "" /\ ovl = 0 /\ owdep = FALSE /\ dda = FALSE
+GenInit == Init /\ tick = 0 /\ fstart \in FaultStarts /\ whole = FALSE /\ flav = "" /\ ovl = 0 /\ owdep = FALSE /\ dda = FALSE /\ opt \in CoreOpts
 GenSpec == GenInit /\ [][GenNext]_gvars
 TickBound == tick < 48
 
